@@ -7,6 +7,18 @@ use crate::gen::dsl::Opts;
 use crate::props::runner::*;
 use crate::report::Report;
 
+const NOTHING_DEFERRED: &[(&str, &str)] = &[
+    ("(module) @m {\n  let @m.x = 1\n}\n(module) @m2 {\n  let @m2.x = 2\n}\n", "pass\n"),
+    ("(module) @m {\n  let @m.x = 1\n  let @m.x = 1\n}\n", "pass\n"),
+    ("(identifier) @a {\n  node n\n  let @a.v = n\n}\n(identifier) @b {\n  let @b.v = 1\n}\n", "x = y\n"),
+    ("inherit .v\n(module) @m {\n  let @m.v = 1\n}\n(identifier) @i {\n  let @i.w = @i.v\n  var @i.w = 2\n}\n", "a\n"),
+    ("(module) @m {\n  node @m.n\n  node @m.n\n}\n", "pass\n"),
+    ("(module) @m {\n  let @m.x = 1\n  let @m.x = 2\n}\n(call) @_c {\n  node n\n  attr (n) k = 1\n}\n", "pass\n"),
+    ("(module) @_m {\n  node n\n  let n.v = 1\n}\n", "pass\n"),
+    ("(module (_) @a (_) @b) {\n  let @a.tag = 1\n  let @b.tag = 2\n}\n", "x\ny\nz\n"),
+    ("(module) @m {\n  let @m.x = 1\n}\n(identifier) @i {\n  let @i.y = 2\n}\n", "a = b\n"),
+];
+
 pub fn run(rep: &mut Report, tier: &str, seed: u64) {
     rep.rule = "generated programs emphasising scoped variables (definitions on every identifier, links between captured nodes, nested scopes @a.link.x, \
                 reads of an inherited name from descendants, duplicate definitions) x generated/corpus trees (deep nesting, same-range parent/child chains, many \
@@ -14,6 +26,11 @@ pub fn run(rep: &mut Report, tier: &str, seed: u64) {
     rep.correspondence = "exec: outcome class, error variant and graph equal between each mode and its model".to_string();
     let n_programs = if tier == "thorough" { 2500 } else { 200 };
     let mut runner = Runner::new("C04");
+    // runs that defer NOTHING (no attr / edge / print is ever queued): duplicate definitions and bad scopes are still found
+    // when the scoped variables are forced at the end of a lazy run
+    for (tsg, src) in NOTHING_DEFERRED {
+        fixed_case(rep, &mut runner, tsg, src, &[None]);
+    }
     campaign(rep, &mut runner, seed, n_programs, 3, false,
         &|pi, r| Opts { fragment: false, fault_pct: 0, max_stanzas: 4, allow_print: false, universal: r.chance(1, 2), probe: pi % 4 == 0, scoped_heavy: true, keywordish_names: false, static_fault: 0 },
         &mut |rep, runner, case, r, _pi| {
